@@ -66,6 +66,14 @@ pub mod extra {
                 let r = super::dbx_shorter_f64(a[0].parse().unwrap());
                 format!("{} {}", r.mant, r.exp)
             },
+            "tm::tm__f32__DragonboxFloat__remove_trailing_zeros" => {
+                let r = super::tm::tm__f32__DragonboxFloat__remove_trailing_zeros(a[0].parse().unwrap());
+                format!("{} {}", r.0, r.1)
+            },
+            "tm::tm__f64__DragonboxFloat__remove_trailing_zeros" => {
+                let r = super::tm::tm__f64__DragonboxFloat__remove_trailing_zeros(a[0].parse().unwrap());
+                format!("{} {}", r.0, r.1)
+            },
             _ => format!("UNKNOWN-KERNEL {}", kernel),
         }
     }
